@@ -69,7 +69,7 @@ CHECKS = {
  "C02": dict(
   engine="E1",
   technique=TECH_E1 + "; j5s programs enumerated by feature families, compiled by the real pipeline, compared with an independent reference compiler (structural contract diff)",
-  text="~1200 (quick) j5s programs from a Go program model: single-field matrix (22 field types x plain/array/map x 5 presence spellings, each alone in its file), numbering (0-6 fields in 11 kinds of holder incl. request/response/publish/reqres/upsert/entity data and events, implicit leading fields), nesting (inline types to depth 3 with/without name override, 5 leaf shapes), enums (0-3 options, explicit UNSPECIFIED, prefix override, top-level/inline), references (3 declaration kinds x 10 reference forms: same file, qualified, cross-file, import by short/full name, alias, 3-segment packages, sibling prefixes x plain/array/map x a second similarly named package imported with and without alias), services (5 verbs x 6 path-parameter patterns x response/empty/none x 3 basePath forms), topics, mixed multi-file packages, entities. For each: the program compiles and links, and the compiled files, packages, user/type imports, messages with nesting, fields (name, JSON name, number, type, type name, label, proto3-optional, oneof membership, map value type), enum values, services, methods, input/output types, HTTP verb and path, messaging role and topic name equal the reference compiler's contract exactly.",
+  text="~1200 (quick) j5s programs from a Go program model: single-field matrix (22 field types x plain/array/map x 5 presence spellings, each alone in its file), numbering (0-6 fields in 11 kinds of holder incl. request/response/publish/reqres/upsert/entity data and events, implicit leading fields), nesting (inline types to depth 3 with/without name override, 5 leaf shapes), enums (0-3 options, explicit UNSPECIFIED, prefix override, top-level/inline), references (3 declaration kinds x 10 reference forms: same file, qualified, cross-file, import by short/full name, alias, 3-segment packages, sibling prefixes x plain/array/map x a second similarly named package imported with and without alias), hand-written proto3 files and j5s files referring to one another (j5s uses proto, proto uses j5s, across packages, both ways x object / enum x plain / array / map), services (5 verbs x 6 path-parameter patterns x response/empty/none x 3 basePath forms), topics, mixed multi-file packages, entities; thorough adds every ordered pair of field types x containers in one object (4356 programs). For each: the program compiles and links, and the compiled files, packages, user/type imports, messages with nesting, fields (name, JSON name, number, type, type name, label, proto3-optional with the presence it stands for, oneof membership, map value type), enum values, services, methods, input/output types, HTTP verb and path, messaging role and topic name equal the reference compiler's contract exactly.",
   note="reference compiler (harness/gj5s) written from README.md; identifier alphabet avoids digits/acronyms; declaration order and options not compared (C04/C12)",
   design="3/C02"),
  "C17": dict(
